@@ -378,10 +378,9 @@ Options:
 				{{end}}
 				_fmt.Print("Usage:\n\n\t{{$.BinaryName}} {{lower .TargetName}}{{range .Args}} <{{.Name}}>{{end}}\n\n")
 				var aliases []string
-				{{- $name := .Name -}}
-				{{- $recv := .Receiver -}}
+				{{- $target := .TargetName -}}
 				{{range $alias, $func := $.Aliases}}
-				{{if and (eq $name $func.Name) (eq $recv $func.Receiver)}}aliases = append(aliases, "{{$alias}}"){{end -}}
+				{{if eq $target $func.TargetName}}aliases = append(aliases, "{{$alias}}"){{end -}}
 				{{- end}}
 				if len(aliases) > 0 {
 					_fmt.Printf("Aliases: %s\n\n", _strings.Join(aliases, ", "))
@@ -397,10 +396,9 @@ Options:
 				{{end}}
 				_fmt.Print("Usage:\n\n\t{{$.BinaryName}} {{lower .TargetName}}{{range .Args}} <{{.Name}}>{{end}}\n\n")
 				var aliases []string
-				{{- $name := .Name -}}
-				{{- $recv := .Receiver -}}
+				{{- $target := .TargetName -}}
 				{{range $alias, $func := $.Aliases}}
-				{{if and (eq $name $func.Name) (eq $recv $func.Receiver)}}aliases = append(aliases, "{{$alias}}"){{end -}}
+				{{if eq $target $func.TargetName}}aliases = append(aliases, "{{$alias}}"){{end -}}
 				{{- end}}
 				if len(aliases) > 0 {
 					_fmt.Printf("Aliases: %s\n\n", _strings.Join(aliases, ", "))
